@@ -461,11 +461,30 @@ class Interp:
         return v
 
     def _needs_sequential(self, vref):
+        u = self.model.units.get(vref.modname)
+        if u is not None and any(self._touches_in_place(st, vref.name) for st in u.tree.body):
+            return True
         if len(vref.exprs) < 2:
             return False
         for n in ast.walk(vref.exprs[-1]):
             if isinstance(n, ast.Name) and n.id == vref.name:
                 return True
+        return False
+
+    @staticmethod
+    def _touches_in_place(st, name):
+        """Module-level statement that updates the object bound to `name` in place:
+        name.update(...)/append(...), name[k] = v, del name[k]."""
+        def is_name(e):
+            return isinstance(e, ast.Name) and e.id == name
+        if isinstance(st, ast.Expr) and isinstance(st.value, ast.Call) and isinstance(st.value.func, ast.Attribute) \
+                and is_name(st.value.func.value) and st.value.func.attr in _LIST_METHODS | {'update', 'add', 'setdefault', 'discard'}:
+            return True
+        if isinstance(st, (ast.Assign, ast.AugAssign)):
+            tgts = st.targets if isinstance(st, ast.Assign) else [st.target]
+            return any(isinstance(t, ast.Subscript) and is_name(t.value) for t in tgts)
+        if isinstance(st, ast.Delete):
+            return any(isinstance(t, ast.Subscript) and is_name(t.value) for t in st.targets)
         return False
 
     def _fold_sequential(self, vref):
@@ -475,6 +494,9 @@ class Interp:
         frame = Frame(None, vref.modname, {})
         saved = self.oracle
         for st in u.tree.body:
+            if self._touches_in_place(st, vref.name) and vref.name in frame.locals:
+                self.exec_stmt(st, frame)
+                continue
             if not isinstance(st, (ast.Assign, ast.AugAssign, ast.For, ast.AnnAssign)):
                 continue
             stores = any(isinstance(n, ast.Name) and n.id == vref.name and isinstance(n.ctx, ast.Store)
